@@ -63,15 +63,16 @@ type View struct {
 }
 
 type NodeCfg struct {
-	Role      string `json:"role"`       // standalone writer reader compactor
-	Router    bool   `json:"router"`     // false: clustering off on this node (no router wired into the handlers)
-	Up        bool   `json:"up"`         // process reachable at start
-	HC        bool   `json:"hc"`         // runs the real HealthChecker
-	Strategy  string `json:"strategy"`   // load-balance strategy
-	Retries   int    `json:"retries"`    // 0 = arc default
-	SelfState string `json:"self_state"` // state the node reports about itself in heartbeats
-	OwnState  string `json:"own_state"`  // state of the local node entry in its own registry
-	Views     []View `json:"views"`      // index = peer; own index ignored
+	Role      string `json:"role"`                 // standalone writer reader compactor
+	Router    bool   `json:"router"`               // false: clustering off on this node (no router wired into the handlers)
+	Up        bool   `json:"up"`                   // process reachable at start
+	HC        bool   `json:"hc"`                   // runs the real HealthChecker
+	Strategy  string `json:"strategy"`             // load-balance strategy
+	Retries   int    `json:"retries"`              // 0 = arc default
+	SelfState string `json:"self_state"`           // state the node reports about itself in heartbeats
+	OwnState  string `json:"own_state"`            // state of the local node entry in its own registry
+	OwnWState string `json:"own_wstate,omitempty"` // writer failover state of the local node entry ("" primary standby)
+	Views     []View `json:"views"`                // index = peer; own index ignored
 }
 
 type Req struct {
@@ -153,6 +154,12 @@ func genC30(r *simrt.Rand, tier string) any {
 	if n >= 2 && r.Chance(50) {
 		p.Nodes[0].Role = []string{"reader", "compactor"}[r.Intn(2)]
 		p.Nodes[1].Role = []string{"writer", "writer", "reader"}[r.Intn(3)]
+	}
+	for i := range p.Nodes {
+		if p.Nodes[i].Role == "writer" {
+			// Pattern-1 failover deployments: a writer is primary or hot standby
+			p.Nodes[i].OwnWState = []string{"", "", "primary", "standby", "standby"}[r.Intn(5)]
+		}
 	}
 	for i := 0; i < n; i++ {
 		for j := 0; j < n; j++ {
@@ -401,6 +408,9 @@ func buildCluster(p *C30Plan) *clusterSim {
 			sn.local.MarkJoined()
 			if nc.OwnState != "healthy" {
 				sn.local.UpdateState(parseState(nc.OwnState))
+			}
+			if nc.OwnWState != "" {
+				sn.local.SetWriterState(cluster.WriterState(nc.OwnWState))
 			}
 			sn.reg = cluster.NewRegistry(&cluster.RegistryConfig{LocalNode: sn.local, Logger: harnessLogger()})
 			for j := range p.Nodes {
@@ -710,6 +720,9 @@ func (cl *clusterSim) apply(f Fault) {
 			a.reg.UpdateNodeState(nodeID(f.B), parseState(f.Arg))
 		}
 	case "promote": // Coordinator.onWriterPromoted
+		if a.local != nil && f.A == f.B && a.cfg.Role == "writer" {
+			a.local.SetWriterState(cluster.WriterState(f.Arg))
+		}
 		if a.reg != nil && f.A != f.B {
 			if pn, ok := a.reg.Get(nodeID(f.B)); ok {
 				pn.SetWriterState(cluster.WriterState(f.Arg))
